@@ -34,6 +34,7 @@ type req struct {
 	Args   [][]byte `json:"args,omitempty"`
 	Raw    []byte   `json:"raw,omitempty"`     // sent instead of the array form when set
 	RawErr bool     `json:"raw_err,omitempty"` // Raw must be answered by exactly one error
+	Free   bool     `json:"free,omitempty"`    // answered by exactly one reply whose content is not judged (a command the proxy answers itself, with arguments)
 }
 
 type connCase struct {
@@ -130,6 +131,7 @@ func checkPipe(c pipeCase) (inf pipeInfo, v *verdict) {
 	type exp struct {
 		reply ref.Value
 		local bool
+		free  bool
 	}
 	exps := make([][]exp, len(c.Conns))
 	for ci, cc := range c.Conns {
@@ -143,6 +145,11 @@ func checkPipe(c pipeCase) (inf pipeInfo, v *verdict) {
 				inf.stoppedByFilter = true
 				continue
 			}
+			if r.Free {
+				exps[ci] = append(exps[ci], exp{free: true})
+				inf.hostileName = true
+				continue
+			}
 			rep, be, local := sim.Expect(ks, r.Args)
 			nodes := map[int]bool{}
 			for _, b := range be {
@@ -154,7 +161,7 @@ func checkPipe(c pipeCase) (inf pipeInfo, v *verdict) {
 			if len(r.Args) > 0 && bytes.ContainsAny(r.Args[0], "\r\n\x00") {
 				inf.hostileName = true
 			}
-			exps[ci] = append(exps[ci], exp{rep, local})
+			exps[ci] = append(exps[ci], exp{reply: rep, local: local})
 		}
 	}
 	replyTimeout := replyTimeout
@@ -211,6 +218,9 @@ func checkPipe(c pipeCase) (inf pipeInfo, v *verdict) {
 					return
 				}
 				e := exps[ci][i]
+				if e.free {
+					continue // one reply, whatever it says; a second one shows up as a shifted stream or at the sentinel
+				}
 				if e.local {
 					if msg := sim.CheckLocal(r.Args, got); msg != "" {
 						res[ci] = &verdict{"reply-mismatch", fmt.Sprintf("conn %d reply %d: %s", ci, i, msg)}
@@ -302,6 +312,13 @@ func genReq(t *rapid.T, pool *gen.KeyPool) req {
 			args = append(args, []byte(tk))
 		}
 		return req{Args: args, Raw: []byte(line + "\r\n")}
+	case 4: // a command the proxy answers itself, with arguments that contain line ends and RESP-looking text: one reply all the same
+		name := rapid.SampledFrom([]string{"ping", "PING", "Ping", "select", "info", "INFO", "time", "hotkey", "HotKey"}).Draw(t, "lname")
+		args := [][]byte{[]byte(name)}
+		for i, n := 0, rapid.IntRange(1, 2).Draw(t, "largc"); i < n; i++ {
+			args = append(args, []byte(rapid.SampledFrom([]string{"hello", "a\r\nb", "x\r\n+OK", "\r\n", "0\r\n:1\r\n", "hello\r\n+world", "$5\r\nhello", "-ERR x\r\n-ERR y", "1", "\n", "server\r\n$3\r\nfoo"}).Draw(t, "larg")))
+		}
+		return req{Args: args, Free: true}
 	case 3: // arrays that are not commands: answered by exactly one error
 		raw := rapid.SampledFrom([]string{"*0\r\n", "*-1\r\n", "*1\r\n:5\r\n", "*2\r\n$3\r\nget\r\n*1\r\n$1\r\nk\r\n", "*1\r\n$-1\r\n", "*1\r\n+get\r\n", ":12\r\n", "+OK\r\n", "$3\r\nget\r\n"}).Draw(t, "notcmd")
 		return req{Raw: []byte(raw), RawErr: true}
